@@ -266,11 +266,6 @@ impl Worker for W {
                 if let Ok(got) = f.call(xs.clone(), ba, bb) {
                     return differs(format!("array.slice {:?} {} {} (out of range for length {}) is answered with {:?} instead of an error", xs, ba, bb, xs.len(), got));
                 }
-                self.vm = None;
-                let vm = match mk_vm() {
-                    Ok(vm) => vm,
-                    Err(e) => return CaseResult::inconclusive(h, e),
-                };
                 let bad_index = if rng.chance(1, 2) { xs.len() as i64 + rng.below(3) as i64 } else { -1 - rng.below(3) as i64 };
                 let mut f = match vm.get_global::<FunctionRef<fn(Vec<i64>, i64) -> i64>>("c19drv.index1") {
                     Ok(f) => f,
@@ -279,10 +274,6 @@ impl Worker for W {
                 if let Ok(got) = f.call(xs.clone(), bad_index) {
                     return differs(format!("array.index {:?} {} (out of range) is answered with {} instead of an error", xs, bad_index, got));
                 }
-                let vm = match mk_vm() {
-                    Ok(vm) => vm,
-                    Err(e) => return CaseResult::inconclusive(h, e),
-                };
                 r.stat("out_of_range_requests_refused", 2);
                 let i = rng.below(xs.len());
                 let mut f = match vm.get_global::<FunctionRef<fn(Vec<i64>, i64) -> i64>>("c19drv.index1") {
